@@ -36,6 +36,8 @@ type c05Input struct {
 	Suite  uint16   `json:"suite"`
 	Recs   []c05Rec `json:"recs"`
 	Edit   c05Edit  `json:"edit"`
+	// HalfClosed: the receiving endpoint has shut down its own sending direction (CloseWrite) before the stream arrives
+	HalfClosed bool `json:"half_closed,omitempty"`
 }
 
 func c05Content(r c05Rec, i int) (typ byte, frag []byte, coq string) {
@@ -74,7 +76,12 @@ func c05AddCase(out *emit.Out, scenario string, in c05Input) {
 			cfg.Auth = 4
 		}
 	}
-	s := puppet.NewTLCPSession(tk.BuildTLCP(cfg, nil), targetIsClient)
+	var s *puppet.TLCPSession
+	s = puppet.NewTLCPSessionOpt(tk.BuildTLCP(cfg, nil), targetIsClient, puppet.SessOpt{OnHandshake: func(err error) {
+		if err == nil && in.HalfClosed {
+			s.Target.CloseWrite()
+		}
+	}})
 	p := s.P
 	if targetIsClient {
 		p.Sig, p.Enc = pk.SrvSig, pk.SrvEnc
@@ -332,6 +339,23 @@ func runC05(p params) error {
 						Edit: c05Edit{Kind: "badpad", Rec: rec, Off: off, Mask: []int{0x01, 0x80, 0xfe}[(rec+off)%3], N: rec + off}})
 				}
 			}
+		}
+	}
+	// injected records without a body, of every content type, at every position
+	for _, typ := range []int{20, 21, 22, 23, 24, 0, 255} {
+		for rec := 0; rec < 4; rec++ {
+			if p.tier != "thorough" && typ != 23 && (typ+rec)%2 == 1 {
+				continue
+			}
+			add("inject-empty", base, c05Edit{Kind: "inject", Rec: rec, Type: typ, N: 0})
+		}
+	}
+	// the receiver has half-closed (CloseWrite) and keeps reading: the same attacks must end the same way
+	for i, ed := range []c05Edit{{Kind: "none"}, {Kind: "flip", Rec: 1, Off: 9, Mask: 4}, {Kind: "drop", Rec: 1}, {Kind: "dup", Rec: 0}, {Kind: "swap", Rec: 0},
+		{Kind: "inject", Rec: 1, Type: 23, N: 16}, {Kind: "inject", Rec: 2, Type: 21, N: 2}, {Kind: "trunc", At: 40}, {Kind: "flip", Rec: 3, Off: 6, Mask: 1}} {
+		for _, su := range []uint16{0xe013, 0xe053} {
+			c05AddCase(out, "half-closed-receiver", c05Input{Target: []string{"server", "client"}[i%2], Suite: su, Recs: base, Edit: ed, HalfClosed: true})
+			c05AddCase(out, "half-closed-receiver", c05Input{Target: []string{"client", "server"}[i%2], Suite: su, Recs: base, Edit: ed, HalfClosed: true})
 		}
 	}
 	add("inject-oversize", base, c05Edit{Kind: "inject", Rec: 1, Type: 23, N: 18433})
